@@ -166,10 +166,6 @@ func execute(sc Scenario, prefix []int) (trace, nen, run []int, problem string) 
 	case "pipelines":
 		for t := 0; t < n; t++ {
 			t := t
-			if _, ok := pipelineWant[t]; !ok {
-				r := dump.Run(schema(fmt.Sprint("t", t)), dump.Options{Positions: true})
-				pipelineWant[t] = r.Summary()
-			}
 			bodies = append(bodies, func() {
 				var r string
 				if pan, pt := core.Guard(func() { r = dump.Run(schema(fmt.Sprint("t", t)), dump.Options{Positions: true}).Summary() }); pan {
@@ -197,6 +193,11 @@ func execute(sc Scenario, prefix []int) (trace, nen, run []int, problem string) 
 				}
 			}
 		case "pipelines":
+			// the sequential reference is computed after the concurrent run: in a fresh process the
+			// first execution then meets every lazily built package-level structure unbuilt
+			if _, ok := pipelineWant[t]; !ok {
+				pipelineWant[t] = dump.Run(schema(fmt.Sprint("t", t)), dump.Options{Positions: true}).Summary()
+			}
 			if results[t][0] != pipelineWant[t] {
 				return trace, nen, run, fmt.Sprintf("pipeline %d differs from its sequential run:\n%s\n--- sequential:\n%s", t, results[t][0], pipelineWant[t])
 			}
@@ -257,15 +258,33 @@ func bound(tier string, sc Scenario, points int) int {
 
 const perShard = 8
 
+func coldRounds(tier string) int {
+	if tier == "thorough" {
+		return 48
+	}
+	return 12
+}
+
+// shards: every pipeline scenario and every cold round gets a worker process of its own, so that
+// its first execution is the first use of the library in that process.
 func shards(tier string) []string {
-	n := len(scenarios(tier))
+	all := scenarios(tier)
 	var out []string
 	// pipelines first: they are the longest
-	out = append(out, "stress", fmt.Sprintf("s/%d", (n-1)/perShard))
-	for i := 0; i < (n+perShard-1)/perShard; i++ {
-		if i != (n-1)/perShard {
-			out = append(out, fmt.Sprintf("s/%d", i))
+	out = append(out, "stress")
+	n := 0
+	for i, sc := range all {
+		if sc.Kind == "pipelines" {
+			out = append(out, fmt.Sprintf("p/%d", i))
+		} else {
+			n++
 		}
+	}
+	for i := 0; i < coldRounds(tier); i++ {
+		out = append(out, fmt.Sprintf("cold/%d", i))
+	}
+	for i := 0; i < (n+perShard-1)/perShard; i++ {
+		out = append(out, fmt.Sprintf("s/%d", i))
 	}
 	return out
 }
@@ -274,16 +293,29 @@ func run(c *core.Ctx) {
 	if !sched.Active() {
 		panic("C19 needs the worker built against the instrumented copy (variant sched)")
 	}
+	c.Res.Bound = "readers: 3 goroutines x 1 operation (all multisets of 10 (thorough 15) reader operations) and 2 goroutines x 2 operations, pipelines: 2 (thorough also 3) goroutines each loading and processing its own 2-module set; preemption bound per scenario by its number P of scheduling points: quick 2 (P<=12), 1 (P<=150), 0 beyond; thorough 3 (P<=14), 2 (P<=70), 1 beyond - the histogram says how many scenarios reached which bound; every schedule runs under the race detector; free-running: 60 (600) warm stress rounds of 8 goroutines and 12 (48) cold rounds, each in a fresh process whose first use of the library is 4-8 parallel pipelines over a schema with every kind of node, type and statement"
 	if c.Shard == "stress" {
 		stress(c)
 		return
 	}
-	var si int
-	fmt.Sscanf(c.Shard, "s/%d", &si)
+	if strings.HasPrefix(c.Shard, "cold/") {
+		cold(c)
+		return
+	}
 	all := scenarios(c.Tier)
-	c.Res.Bound = "readers: 3 goroutines x 1 operation (all multisets of 10 (thorough 15) reader operations) and 2 goroutines x 2 operations, pipelines: 2 (thorough also 3) goroutines each loading and processing its own 2-module set; preemption bound per scenario by its number P of scheduling points: quick 2 (P<=12), 1 (P<=150), 0 beyond; thorough 3 (P<=14), 2 (P<=70), 1 beyond - the histogram says how many scenarios reached which bound; every schedule runs under the race detector"
-	for k := si * perShard; k < (si+1)*perShard && k < len(all); k++ {
+	var si int
+	lo, hi := 0, 0
+	if _, err := fmt.Sscanf(c.Shard, "p/%d", &si); err == nil {
+		lo, hi = si, si+1
+	} else {
+		fmt.Sscanf(c.Shard, "s/%d", &si)
+		lo, hi = si*perShard, (si+1)*perShard // readers come first in the list
+	}
+	for k := lo; k < hi && k < len(all); k++ {
 		sc := all[k]
+		if sc.Kind == "pipelines" && !strings.HasPrefix(c.Shard, "p/") {
+			continue
+		}
 		t0, _, _, _ := execute(sc, nil)
 		b := bound(c.Tier, sc, len(t0))
 		c.OutcomeN(fmt.Sprintf("scenarios-explored-to-preemption-bound-%d", b), 1)
@@ -387,6 +419,97 @@ func stress(c *core.Ctx) {
 
 const stressG = 8
 
+// wide touches every kind of node, type and statement the library converts, so that whatever it
+// builds lazily per kind is first built here.
+func wide(tag string) []dump.File {
+	return []dump.File{
+		{Name: "w.yang", Text: `module w { yang-version 1.1; ` + H("w") + ` include ws; import x { prefix x; } revision 2020-01-01; extension ext { argument a; } feature f;
+ typedef t { type int8 { range "1..9"; } default 3; units u; } typedef u { type union { type t; type string { length "1..4"; pattern "a.*"; } type enumeration { enum one; enum two { value 5; } } type bits { bit b0; bit b7 { position 7; } } } }
+ typedef d { type decimal64 { fraction-digits 2; range "1.5..2.5"; } } identity base; identity d1 { base base; } identity d2 { base d1; base x:xb; }
+ grouping g { leaf gl { type t; must "1 = 1"; w:ext "` + tag + `"; } list gli { key k; unique v; leaf k { type string; } leaf v { type u; } min-elements 1; max-elements 9; ordered-by user; } leaf-list gll { type d; default 1.5; default 2.5; } }
+ container c { presence p; uses g; leaf x { type string; default "` + tag + `"; if-feature f; } choice ch { default s; leaf s { type string; } case k { leaf kk { type leafref { path "../x"; } } anydata ad; anyxml ax; } } action act { input { leaf ai { type t; } } output { leaf ao { type identityref { base base; } } } } notification cn { leaf cnl { type empty; } } }
+ leaf r { type identityref { base base; } } leaf ii { type instance-identifier { require-instance false; } } leaf bo { type boolean; mandatory true; } leaf bi { type binary { length "2..4"; } }
+ rpc op { input { leaf oi { type t; } } output { uses g; } } notification n { uses g; }
+ augment /w:c { when "x = 1"; leaf wy { type t; } } deviation /w:c/w:x { deviate add { units uu; } } deviation /w:ii { deviate not-supported; } deviation /w:c/w:gli { deviate replace { max-elements 5; } }
+}`},
+		{Name: "ws.yang", Text: `submodule ws { yang-version 1.1; belongs-to w { prefix w; } container sc { leaf sl { type w:t; } } identity sub { base w:base; } }`},
+		{Name: "x.yang", Text: `module x { yang-version 1.1; ` + H("x") + ` import w { prefix w; } identity xb; augment /w:c/w:ch { container xz { uses w:g; } } augment /w:op/w:input { leaf xi { type w:u; } } container xc { config false; uses w:g; } }`},
+	}
+}
+
+// cold is one round on a fresh process: the first thing the library is asked to do is to run G
+// independent pipelines in parallel (free-running, under the race detector); only afterwards are
+// the sequential references computed. Package-level structures that the library builds on first use
+// are thus built under contention, which no later round of the process can reproduce.
+func cold(c *core.Ctx) {
+	var k int
+	fmt.Sscanf(c.Shard, "cold/%d", &k)
+	caseNo, run := c.Begin()
+	in := Input{Scenario: Scenario{Kind: "cold"}, Prefix: []int{k}}
+	if c.Skip(caseNo, run, in) {
+		return
+	}
+	problem := coldRound(k)
+	c.Exec()
+	c.Validate()
+	c.Edge(int64(4 + k%5))
+	c.StateN(1)
+	c.NontrivialN(1)
+	if problem != "" {
+		c.Outcome("FAIL:cold")
+		c.Fail(caseNo, nil, "cold:"+fingerprint(problem), in, "sequential results, no race", problem)
+	} else {
+		c.Outcome("cold-round-clean")
+	}
+}
+
+var coldDone bool
+
+func coldRound(k int) string {
+	if coldDone {
+		return "" // only the first round of a process is cold
+	}
+	coldDone = true
+	runtime.GOMAXPROCS(8)
+	G := 4 + k%5
+	before := len(core.RaceLog())
+	files := func(g int) []dump.File {
+		if (g+k)%2 == 0 {
+			return wide(fmt.Sprint("t", g))
+		}
+		return schema(fmt.Sprint("t", g))
+	}
+	results := make([]string, G)
+	start := make(chan struct{})
+	var wg sync.WaitGroup
+	for g := 0; g < G; g++ {
+		g := g
+		wg.Add(1)
+		go func() {
+			defer wg.Done()
+			<-start
+			if pan, pt := core.Guard(func() { results[g] = dump.Run(files(g), dump.Options{Positions: true}).Summary() }); pan {
+				results[g] = "PANIC: " + pt
+			}
+		}()
+	}
+	close(start)
+	wg.Wait()
+	problem := ""
+	for g := 0; g < G; g++ {
+		if want := dump.Run(files(g), dump.Options{Positions: true}).Summary(); results[g] != want {
+			problem = fmt.Sprintf("cold pipeline %d differs from its sequential run:\n%s\n--- sequential:\n%s", g, results[g], want)
+		}
+		if strings.HasPrefix(results[g], "process errors") || strings.HasPrefix(results[g], "load[") {
+			problem = "cold pipeline schema does not process: " + results[g]
+		}
+	}
+	if log := core.RaceLog(); len(log) > before {
+		problem = "data race reported in the cold round:\n" + log[before:]
+	}
+	return problem
+}
+
 func stressRound(r int) string {
 	// Real parallelism: the scheduler-driven exploration serialises goroutines, and incidental
 	// synchronisation in the Go runtime and standard library (sync.Pool reuse inside fmt, for one)
@@ -452,6 +575,12 @@ func replay(tier string, raw json.RawMessage) (bool, string, string) {
 	if !sched.Active() {
 		return false, "", "needs the sched variant"
 	}
+	if in.Scenario.Kind == "cold" {
+		if p := coldRound(in.Prefix[0]); p != "" {
+			return true, "cold:" + fingerprint(p), p
+		}
+		return false, "", "cold round clean"
+	}
 	if in.Scenario.Kind == "stress" {
 		// not a schedule: re-run the rounds up to the recorded one, ten times over
 		for k := 0; k < 10; k++ {
@@ -483,7 +612,7 @@ func fingerprint(problem string) string {
 func init() {
 	core.Register(&core.Prop{
 		ID: "C19", Variant: "sched", NoResume: true, Shards: shards, Run: run, Replay: replay,
-		Rule:        "closed programs of 2-3 goroutines over the real library with its sync import redirected to a cooperative-scheduler shim (every lock operation is a scheduling point, a blocked acquire is disabled, no enabled goroutine = deadlock): (readers) one processed 2-module set shared by goroutines issuing reader operations - ToEntry cache hits, Find of grafted and deep nodes, Namespace, first-time and repeated InstantiatingModule / FindModuleByNamespace for the same, different and unknown namespaces, ReadOnly, DefaultValues, GetErrors, Print, full dump - in all multisets of three operations and in 2x2 sequences; (pipelines) goroutines each loading, processing and dumping their own module set. Every schedule within the preemption bound is executed under Go's race detector, whose view is not disturbed by the scheduler (hand-offs are raw syscalls in norace code); each goroutine's results must equal the sequential results. states = schedules executed; transitions = scheduling decisions; non-trivial = scenarios with more than one distinct schedule",
+		Rule:        "closed programs of 2-3 goroutines over the real library with its sync import redirected to a cooperative-scheduler shim (every lock operation is a scheduling point, a blocked acquire is disabled, no enabled goroutine = deadlock): (readers) one processed 2-module set shared by goroutines issuing reader operations - ToEntry cache hits, Find of grafted and deep nodes, Namespace, first-time and repeated InstantiatingModule / FindModuleByNamespace for the same, different and unknown namespaces, ReadOnly, DefaultValues, GetErrors, Print, full dump - in all multisets of three operations and in 2x2 sequences; (pipelines) goroutines each loading, processing and dumping their own module set, each pipeline scenario in a worker process of its own with the sequential reference computed afterwards; (cold rounds, free-running) fresh processes whose first use of the library is several parallel pipelines over a schema that touches every kind of node, type and statement, so that package-level structures built on first use are built under contention. Every schedule within the preemption bound is executed under Go's race detector, whose view is not disturbed by the scheduler (hand-offs are raw syscalls in norace code); each goroutine's results must equal the sequential results. states = schedules executed; transitions = scheduling decisions; non-trivial = scenarios with more than one distinct schedule",
 		Assumptions: []string{"scheduling points are lock operations; unsynchronised accesses between them are left to the race detector, which reports conflicting accesses not ordered by the library's own synchronisation in any explored schedule", "memory-model reorderings between two non-synchronising instructions are not permuted"},
 	})
 }
